@@ -213,8 +213,8 @@ def run(ctx):
                 "signer, bundle, 4 error kinds), UpdateConfigTrustBundle, rotation callbacks aimed at current/stale/used/absent entries; "
                 "ratio in quarters, jitter in {0, 0.01, 1/16}. conc: N=1..12 goroutines, 0-3 failing CA calls, slow CA; plus two stress ops (GenerateSecret || rotation tasks || bundle updates). "
                 "citadel: real CitadelClient against an in-process gRPC CA (normal / three-element / leaf-only / empty chain, gRPC error). "
-                "sds: real sds.Server on its unix socket with 0-5 gRPC subscribers of default/ROOTCA, subscribe / drop / rotate / stale task / "
-                "bundle update. timer: real delayed queue, 3-5 s lifetimes (first delay > 1 s), plus a stress of the queue (100k single pushes on an empty heap, 25 x (one 100 ms task + burst of 20)). distinct = hash of (ops, implementation outputs) "
+                "file: file-mounted key/cert/root, GenerateSecret / atomic file replacement / bundle. sds: real sds.Server on its unix socket with "
+                "0-5 gRPC subscribers, subscribe / unsubscribe / changed resource set / drop / rotate / stale task / bundle / failing CA / changing root. timer: real delayed queue, 3-5 s lifetimes (first delay > 1 s), plus a stress of the queue (100k single pushes on an empty heap, 25 x (one 100 ms task + burst of 20)). distinct = hash of (ops, implementation outputs) "
                 "(rotate: inputs only); non-trivial = at least one op")
     ctx.assumptions = [
         "float64 rounding in rotateTime is not modelled; real results are accepted within tol(L) = |L|/2^50 + 2 ns of the exact interval",
@@ -231,11 +231,11 @@ def run(ctx):
     if not ctx.go_build():
         return
     rotate_stream(ctx, ctx.n(10000, 200000))
-    ctx.diff_stream("cache", ctx.n(2500, 40000), oracle=oracle)
-    ctx.diff_stream("conc", ctx.n(150, 2500), oracle=oracle)
-    ctx.diff_stream("citadel", ctx.n(300, 6000), oracle=oracle)
-    ctx.diff_stream("file", ctx.n(60, 2000), oracle=oracle)
-    ctx.diff_stream("sds", ctx.n(40, 1500), oracle=oracle)
+    ctx.diff_stream("cache", ctx.n(2000, 40000), oracle=oracle)
+    ctx.diff_stream("conc", ctx.n(120, 2500), oracle=oracle)
+    ctx.diff_stream("citadel", ctx.n(200, 6000), oracle=oracle)
+    ctx.diff_stream("file", ctx.n(40, 2000), oracle=oracle)
+    ctx.diff_stream("sds", ctx.n(32, 1500), oracle=oracle)
     ctx.diff_stream("timer", ctx.n(8, 300), oracle=timer_oracle)
     oracle_all(ctx, ["rotate", "cache", "conc", "citadel", "file", "sds", "timer"])
 
@@ -275,34 +275,35 @@ MANIFEST = {
                    "condition floor(clamp(r-J)*L) >= 1 ns (rotate_strictly_before_expiry; strictness_needs_margin shows it is needed), "
                    "monotonicity, and the hull of admissible delays used by the tie. (2) SecretManagerClient is modelled as processes "
                    "interleaving at atomic steps (GenerateSecret for both resources, rotation callbacks, UpdateConfigTrustBundle, arbitrary CA "
-                   "behaviour); eleven invariants are proved for every schedule (inv_reachable) and give single_flight (<= 1 successful CA call "
-                   "between two cache clears - single_flight_segment -, same pair for all calls inside one epoch), every cached certificate "
-                   "has its renewal queued with delay <= time to expiry (cached_cert_has_rotation_scheduled), stale callbacks are no-ops, the "
-                   "`default` callback is delivered after the cache was emptied and never sees the certificate to be rotated "
-                   "(rotation_event_after_clear), failure_not_sticky, root_change_announced (both resources), root_includes_ca (sorted "
-                   "duplicate-free union). pair_consistent is structural in the model (an item is only built from one CA response and never "
-                   "recombined); that the REAL key and leaf belong together rests on the oracle's public-key comparison and the key/cert ids "
-                   "compared in every run. Both models are tied to /repo on every run by differential execution of the real code, including "
-                   "the real CitadelClient, the real SDS server and the real delayed queue."),
-    "level_note": ("Trusted: Lean kernel + {propext, Classical.choice, Quot.sound}; the hand-written models (tied by differential testing: "
-                   "real rotateTime observed 3x on 10^4 random certificates and judged by the model's interval with a float tolerance of "
-                   "|L|/2^50 + 2 ns; a real SecretManagerClient with a signing fake CA, recording queue and a handler that records the cache "
-                   "state at callback time on 2500 random scripts; 150 concurrent runs; 300 scripts through the real CitadelClient and an "
-                   "in-process gRPC CA; 40 scripts through the real sds.Server with gRPC subscribers (subscribe / unsubscribe / two resources per "
-                   "stream / failing CA / changing root); 8 real-delayed-queue runs + a queue stress in two shapes; quick tier); the verif-tagged accessor file security/pkg/nodeagent/cache/zz_verif_c18.go. "
-                   "Assumed: mutexes give atomic sections, the CA signs the CSR it is given, CreatedTime values of different CA responses "
-                   "differ, float64 rounding stays within the tolerance. Not modelled: file-mounted certificates / fsnotify paths, "
-                   "OutputKeyCertToDir; sdsservice.go, citadel/client.go and pkg/queue/delay.go are executed and compared but not modelled "
-                   "line by line (the model lets a pushed task run at any time, once; an SDS push is 'every current subscriber re-requests'). "
-                   "The interleaving semantics is tied to the real code sequentially, by concurrent GenerateSecret runs, and by an uncontrolled "
-                   "stress (16 goroutines of GenerateSecret || rotation tasks || bundle updates for 1 s) on which the observables of the "
-                   "invariants are asserted (no panic, key matches leaf, CA calls <= clears + 1, queue length = CA calls, the cached "
-                   "certificate's task is pending); specific interleavings are not forced (no gate hooks). 'No later than its expiry' is judged "
-                   "against the NotAfter of the leaf that is served, and the client's ExpireTime / CreatedTime are checked against it. The "
-                   "statement's 'at most one signing request' is proved for successful requests; with a failing CA it is false "
-                   "(at_most_one_signing_request_witness; exact bound signing_requests_segment: one plus the failed ones). The scheduled delay is proved <= time to expiry from the "
-                   "instant rotateTime read the clock; strictness is proved for rotateTime, not lifted to the system model; the queue's "
-                   "enqueue latency comes on top (lateness is observed against certificate expiry in the timer stream)."),
+                   "behaviour); pairs of writes whose order matters to a subscriber are separate steps (store then push the task, empty the "
+                   "cache then notify, store the root / the bundle then announce). Sixteen invariants are proved for every schedule "
+                   "(inv_reachable) and give: single_flight (<= 1 successful CA call between two cache clears, same pair for all calls inside "
+                   "one epoch; with a failing CA the text's 'at most one signing request' is false - witness - and the exact bound is one plus "
+                   "the failed ones); every cached certificate has its renewal queued, still pending, with delay <= time to expiry, or its "
+                   "storer is between store and push (cached_cert_has_rotation_scheduled, store_then_push); the `default` callback never sees "
+                   "the certificate to be rotated (rotation_event_after_clear); `ROOTCA` callbacks are made with certRoot / configTrustBundle "
+                   "already updated (root_change_announced_step, bundle_event_after_store); failure_not_sticky; root_change_announced (both "
+                   "resources); root_includes_ca incl. the interleaved two-read path. 'Stale callbacks are no-ops' is proved under the "
+                   "explicit hypothesis that CreatedTime values are distinct (timer_clears_only_own_cert; witness without it). Strictness at "
+                   "system level holds when the drawn jitter is admissible for the configured bound (scheduled_strictly_before_expiry_step). "
+                   "pair_consistent is structural in the model; that the REAL key and leaf belong together rests on the oracle's public-key "
+                   "comparison. Both models are tied to /repo on every run by differential execution of the real code."),
+    "level_note": ("Trusted: Lean kernel + {propext, Classical.choice, Quot.sound}; the hand-written models (tied by differential testing, quick "
+                   "tier: real rotateTime 3x on 10^4 random certificates judged by the model's interval, float tolerance |L|/2^50 + 2 ns; a real "
+                   "SecretManagerClient with a signing fake CA, recording queue (notes the cache state at PushDelayed) and handler (notes the "
+                   "cache / bundle / root state at every callback) on 2000 random scripts with ratio and jitter over [0,1]^2; 120 concurrent "
+                   "runs + 3 uncontrolled stress runs (GenerateSecret || rotation tasks, some run inside PushDelayed || bundle updates, "
+                   "failing CA, changing roots) asserting the observables of the invariants; OutputKeyCertToDir under concurrency; 200 scripts "
+                   "through the real CitadelClient and an in-process gRPC CA; 40 scripts on file-mounted certificates with real fsnotify "
+                   "events; 32 scripts through the real sds.Server with gRPC subscribers; the real delayed queue: 8 timed scenarios, a stress "
+                   "in two shapes, and 2500 zero-delay rotations on the queue NewSecretManagerClient creates itself); the verif-tagged accessor "
+                   "file security/pkg/nodeagent/cache/zz_verif_c18.go. Assumed: mutexes give atomic sections, the CA signs the CSR it is given, "
+                   "CreatedTime values of different CA responses differ (explicit hypothesis of the stale-callback theorem), float64 rounding "
+                   "stays within the tolerance. Observed but not modelled line by line: sdsservice.go, citadel/client.go, pkg/queue/delay.go, "
+                   "nodeagent/util OutputKeyCertToDir, the file-mounted paths (modelled as 'returns the file pair'; symlink watchers not "
+                   "exercised). Specific interleavings are not forced on the real code (no gate hooks). The scheduled delay is proved <= time "
+                   "to expiry from the instant rotateTime read the clock; the queue's enqueue latency comes on top (lateness is observed "
+                   "against the leaf's NotAfter)."),
     "technique": "Lean 4 theorems over an exact model of rotateTime and an atomic-step interleaving model of SecretManagerClient + differential correspondence with the real Go code",
     "design_ref": "DESIGN.md section 5 C18",
 }
